@@ -13,8 +13,11 @@ import sys
 import time
 
 VERIF = os.path.dirname(os.path.dirname(os.path.abspath(__file__)))
-EVID = os.path.join(VERIF, "evidence")
-REPLAYS = os.path.join(VERIF, "replays")
+# VERIF_EVIDENCE_DIR redirects evidence / replays (used by tools/killmatrix.sh
+# so that runs against seeded changes never touch the committed evidence)
+EVID = os.environ.get("VERIF_EVIDENCE_DIR") or os.path.join(VERIF, "evidence")
+REPLAYS = os.path.join(os.environ["VERIF_EVIDENCE_DIR"], "replays") if os.environ.get("VERIF_EVIDENCE_DIR") \
+    else os.path.join(VERIF, "replays")
 
 
 def tier():
